@@ -43,7 +43,10 @@ func nsOperands() []gen.Expr {
 func cursorMovers() []gen.Expr {
 	return []gen.Expr{relPath(gen.St("following", "node()")), relPath(gen.St("following", "a")), relPath(gen.St("preceding", "node()")), relPath(gen.St("preceding", "a")),
 		relPath(gen.Ch("*", relPath(gen.At("x")))), relPath(gen.Ch("a", relPath(gen.Ch("text()")))), relPath(gen.St("ancestor", "*")), relPath(gen.St("descendant", "node()")),
-		relPath(gen.Ch("*", gen.B("=", relPath(gen.Dot()), gen.S("1")))), relPath(gen.St("following-sibling", "*")), relPath(gen.St("preceding-sibling", "node()"))}
+		relPath(gen.Ch("*", gen.B("=", relPath(gen.Dot()), gen.S("1")))), relPath(gen.St("following-sibling", "*")), relPath(gen.St("preceding-sibling", "node()")),
+		// multi-step paths with a predicate on a later step (the engine's merge queries)
+		relPath(gen.Ch("*"), gen.Ch("*", gen.F("not", relPath(gen.Ch("*"))))), relPath(gen.Ch("a"), gen.Ch("*", gen.N(1))), relPath(gen.Ch("*"), gen.At("*", gen.F("contains", relPath(gen.Dot()), gen.S("1")))),
+		gen.F("count", relPath(gen.Ch("*"), gen.Ch("*", gen.F("not", relPath(gen.Ch("*")))))), relPath(gen.DotDot(), gen.Ch("*", gen.F("last")))}
 }
 
 var cmpOps = []string{"=", "!=", "<", "<=", ">", ">="}
@@ -206,9 +209,16 @@ func c07Spaces(tier string) []*explore.Space {
 	for _, mv := range cursorMovers() {
 		for _, cd := range ctxDep {
 			for _, op := range []string{"and", "or"} {
-				k5 = append(k5, gen.B(op, mv, cd), gen.B(op, gen.F("not", mv), cd), gen.B(op, cd, mv))
+				k5 = append(k5, gen.B(op, mv, cd), gen.B(op, cd, mv))
+				_, isPath := mv.(*gen.Path) // not() is specified for booleans and node-sets only
+				if isPath {
+					k5 = append(k5, gen.B(op, gen.F("not", mv), cd))
+				}
 				for _, h := range []gen.Step{gen.Ch("*"), gen.St("descendant-or-self", "node()")} {
-					k5h = append(k5h, hostCase{relPath(withPred(h, gen.B(op, mv, cd))), relPath(h)}, hostCase{relPath(withPred(h, gen.B(op, gen.F("not", mv), cd))), relPath(h)})
+					k5h = append(k5h, hostCase{relPath(withPred(h, gen.B(op, mv, cd))), relPath(h)})
+					if isPath {
+						k5h = append(k5h, hostCase{relPath(withPred(h, gen.B(op, gen.F("not", mv), cd))), relPath(h)})
+					}
 				}
 			}
 		}
